@@ -331,7 +331,7 @@ def relayout(rng, text, tb):
     out = []
     for i, l in enumerate(lexemes):
         w = l
-        if is_word_start(l[0]) and go_upper(l) in tb.kw and l.isascii():
+        if is_word_start(l[0]) and go_upper(l) in tb.kw and l.isascii() and go_upper(l) not in getattr(tb, "ident_like", ()):
             m = rng.randint(0, 2)
             w = l.upper() if m == 0 else l.lower() if m == 1 else l.swapcase()
         if i > 0:
